@@ -19,8 +19,8 @@ func runExtras(e *Engine, prop, tier string) []*extraResult {
 		out = append(out, e.checkAcceptCompleteness())
 	}
 	if prop == "C05" {
-		out = append(out, runBoundedGoTest(prop, "bounded:SetLinks", "boltz", "c05_setlinks_test.go", "^TestVerifBoundedSetLinks$",
-			"linkCollectionImpl.SetLinks (sorted merge): exhaustive on the real code with a real bbolt file over 4 link targets (byte-order and prefix relations), every current set (16) x every requested list of length <= 4 over the targets plus one missing id, any order, duplicates allowed (781); checks the resulting set on both sides, IsLinked, a bystander entity, and that a missing target fails"))
+		out = append(out, runBoundedGoTest(prop, tier, "bounded:SetLinks", "boltz", "c05_setlinks_test.go", "^TestVerifBoundedSetLinks$",
+			"linkCollectionImpl.SetLinks (sorted merge): exhaustive on the real code with a real bbolt file over 4 link targets (byte-order and prefix relations), every current set x every requested list of length <= 4 over the targets plus one missing id, any order, duplicates allowed (quick: 16 x 781; thorough: 5 targets, length <= 5: 32 x 9331); checks the resulting set on both sides, IsLinked, a bystander entity, and that a missing target fails"))
 	}
 	return out
 }
@@ -30,7 +30,7 @@ var reBoundedFail = regexp.MustCompile(`(?m)^BOUNDED-FAIL (.*)$`)
 
 // runBoundedGoTest runs a Go test file kept under /verif/bounded against the current /repo tree by injecting it with
 // `go test -overlay` (nothing is written into /repo). The result is a bounded stand-in: labelled so, never counted as proved.
-func runBoundedGoTest(prop, name, pkg, file, run, note string) *extraResult {
+func runBoundedGoTest(prop, tier, name, pkg, file, run, note string) *extraResult {
 	x := &extraResult{Name: name, Kind: "bounded", Note: note}
 	work := filepath.Join(verifDir, "work", prop+"-bounded")
 	os.MkdirAll(work, 0o755)
@@ -41,7 +41,7 @@ func runBoundedGoTest(prop, name, pkg, file, run, note string) *extraResult {
 	os.WriteFile(ovPath, b, 0o644)
 	cmd := exec.Command("go", "test", "-overlay", ovPath, "-vet=off", "-count=1", "-timeout", "600s", "-v", "-run", run, "./"+pkg+"/")
 	cmd.Dir = repo
-	cmd.Env = append(os.Environ(), "GOFLAGS=-mod=mod", "GOPROXY=off", "GOSUMDB=off", "GOTOOLCHAIN=local")
+	cmd.Env = append(os.Environ(), "GOFLAGS=-mod=mod", "GOPROXY=off", "GOSUMDB=off", "GOTOOLCHAIN=local", "VERIF_BOUNDED_LEVEL="+tier)
 	t0 := time.Now()
 	outB, err := cmd.CombinedOutput()
 	out := string(outB)
